@@ -203,6 +203,9 @@ type pipeWorld struct {
 	gapSum      int          // frames skipped so far
 	blockFrame0 []FrameIndex // first frame number of each block fed
 	blockDrop   []int        // droppedFrames flag of each block fed
+	// cycleBase: blocks delivered to earlier runs of this world (a history with a Stop and a new Start goes
+	// on feeding the same stream; the source counts its deliveries from zero in every run)
+	cycleBase int
 }
 
 // newSourceControl builds the server object the way RunRPCServer does (minus sockets).
@@ -225,7 +228,7 @@ func newPipeWorld(env *simrt.Env, nchan, npre, nsamp int, rate float64) *pipeWor
 		if w.ss == nil {
 			return 0
 		}
-		return w.ss.delivered
+		return w.cycleBase + w.ss.delivered
 	})
 	w.sc = newSourceControl(npre, nsamp)
 	w.sk.drainHeartbeats(w.sc.heartbeats)
@@ -305,7 +308,7 @@ func (w *pipeWorld) feedBlock(n int, mod func(b *dataBlock)) {
 // for the producer to have handed over the last block, then runs an empty request
 // through the core loop (requests run between blocks).
 func (w *pipeWorld) sync() {
-	for w.ss.delivered < w.fed {
+	for w.cycleBase+w.ss.delivered < w.fed {
 		time.Sleep(10 * time.Microsecond)
 		if !w.sc.ActiveSource.Running() {
 			return
